@@ -32,6 +32,12 @@ def run(tier):
             ordered.append(cols[k][i] if i < len(cols[k]) else filler)
     res = replay.replay(exe, ordered, shards=ncol, timeout_s=120)
     c.add_replay(res, "2D query vs 3D query at the specified mapped point")
+    from lib import gen
+    gb = gen.behaviours(c, tier, "section")          # documents of the world-file grammar with one of four cross sections
+    gres = replay.replay(exe, gb, shards=16, timeout_s=300)
+    gres.n = len(gb)
+    c.add_replay(gres, "documents of the world-file grammar: 2D interface vs 3D interface at the mapped points along the document's cross section")
+    c.coverage["grammar_documents"] = len(gb)
     c.sample(r.behaviours[0][:2500] + "...")
     c.coverage["exhaustive"] = True
     c.coverage["distinct_nontrivial"] = res.stats.get("queries", 0) // 2
@@ -42,7 +48,8 @@ def run(tier):
                           "exactly; velocity as the specified projection; the same pairs through 11 single-property entry points (World::temperature with and "
                           "without gravity argument, composition, grains; C API properties/temperature/composition; C++ wrapper), with and without forced "
                           "surface temperature, depth 0 included; refusal of all 17 2D entry points without a cross section at depths {0, 50 km}, forced "
-                          "and unforced. non-trivial = (2D,3D) query pairs")
+                          "and unforced; plus simulated documents of the world-file grammar Gen.tla, each with one of four Pythagorean cross sections, compared "
+                          "at 14 positions x 7 depths along the section. non-trivial = (2D,3D) query pairs")
     c.assumptions += ["blocks compared with rel/abs 1e-9 (the code's own mapping rounds differently from the exact rational one); probes >= 1 km from straight feature boundaries",
                       "spherical velocity projection not asserted (statement: Cartesian)"]
     return c.finish()
